@@ -4,6 +4,9 @@ import (
 	"fmt"
 	"go/ast"
 	"go/token"
+	"os"
+	"path/filepath"
+	"strconv"
 	"strings"
 )
 
@@ -1135,6 +1138,32 @@ func resolveCallEx(path string, call *ast.CallExpr, wantBool bool, after []ast.S
 
 var currentFile string
 
+// true when the go.mod next to (or above) the translated file asks for go >= 1.22 (loop variables are per iteration)
+var goPerIterationLoopVars bool
+
+func detectGoVersion(path string) {
+	goPerIterationLoopVars = false
+	dir := filepath.Dir(path)
+	for i := 0; i < 6; i++ {
+		b, err := os.ReadFile(filepath.Join(dir, "go.mod"))
+		if err == nil {
+			for _, l := range strings.Split(string(b), "\n") {
+				f := strings.Fields(l)
+				if len(f) == 2 && f[0] == "go" {
+					p := strings.Split(f[1], ".")
+					if len(p) >= 2 {
+						maj, _ := strconv.Atoi(p[0])
+						min, _ := strconv.Atoi(p[1])
+						goPerIterationLoopVars = maj > 1 || (maj == 1 && min >= 22)
+					}
+				}
+			}
+			return
+		}
+		dir = filepath.Dir(dir)
+	}
+}
+
 // ---------------------------------------------------------------- one stage function
 
 func chanElemOfType(e ast.Expr) (ast.Expr, bool, bool) { // elem, isChan, variadic
@@ -1459,6 +1488,14 @@ func stage(fd *ast.FuncDecl) string {
 							worker = &stWorker{body: lit.Body, param: lit.Type.Params.List[0].Names[0].Name, workers: "perInput"}
 							continue
 						}
+					}
+				}
+				// go func() { … c … }(): the literal captures the loop variable, which is a fresh variable per iteration
+				// (the module's go directive is >= 1.22: checked by the caller of this family through goVersionOK)
+				if kok && vok && gok && k.Name == "_" && x.Tok == token.DEFINE && addOK && len(g.Call.Args) == 0 && goPerIterationLoopVars {
+					if lit, ok := g.Call.Fun.(*ast.FuncLit); ok && (lit.Type.Params == nil || len(lit.Type.Params.List) == 0) {
+						worker = &stWorker{body: lit.Body, param: v.Name, workers: "perInput"}
+						continue
 					}
 				}
 			}
@@ -2060,6 +2097,7 @@ func stagesFamily(files []string) string {
 	sb.WriteString("import Golem.Model.StageDSL\nset_option linter.unusedVariables false\n")
 	fmt.Fprintf(&sb, "namespace Golem.Gen.%s\nopen Golem.Go Golem.Model.DSL\n\nvariable {σ α β ε : Type}\n\n", ns)
 	currentFile = files[0]
+	detectGoVersion(files[1])
 	sb.WriteString(catchFamily(parse(files[0])))
 	f := parse(files[1])
 	currentFile = files[1]
